@@ -120,6 +120,50 @@ def run(chk, facts_by_config):
         c11_pad.run_rule(chk, cfgname, m)
 
 
+def new_equals_new_from_slice(m, new_root, nfs_root):
+    """None if KeyInit::new(k) and new_from_slice(&k[..]) yield identical leaf terms for a symbolic key, else a reason"""
+    import equiv, engine
+    import terms as T
+    from interp import State, Ptr, _leaf_terms
+    from values import Arr, Enum, topint
+    from ops import flatten
+    try:
+        with equiv.TermMode():
+            engine._INTERPS.clear()
+            I = engine.mk_interp(m, 60_000_000)
+            f = m.fn(new_root)
+            st = State()
+            args = engine.default_args(I, st, f)
+            kty = I.types[f['mir']['locals'][1]]['t']
+            kb = flatten(I, st.mem[args[0].obj], kty)
+            if kb is None or any(b.term is None for b in kb):
+                return 'key is not byte-flattenable'
+            s1, a = engine.run(I, new_root, args, st)
+            if s1 != 'ok':
+                return 'new: %s %s' % (s1, str(a)[:120])
+            st2 = State()
+            I.fresh += 1
+            obj = ('P', 'keyslice', I.fresh)
+            st2.mem[obj] = Arr(engine.u8_slice_type(I), [topint(8, False, b.term) for b in kb])
+            s2, r = engine.run(I, nfs_root, [Ptr(obj, (), I.usize(0), I.usize(len(kb)), None, None, False)], st2)
+            if s2 != 'ok' or not isinstance(r, Enum) or r.variant != 0:
+                return 'new_from_slice(KeySize bytes): %s %s' % (s2, str(r)[:120])
+            la, lb = [], []
+            _leaf_terms(a, la)
+            _leaf_terms(r.f[0], lb)
+            if len(la) != len(lb):
+                return 'different shapes'
+            for i, (x, y) in enumerate(zip(la, lb)):
+                if x is None or y is None or x is not y:
+                    return 'leaf %d differs: %s' % (i, T.first_diff(x, y) if (x is not None and y is not None) else 'no term')
+        return None
+    except Exception as e:
+        return 'analysis error %r' % (e,)
+    finally:
+        import engine as _e
+        _e._INTERPS.clear()
+
+
 def rule_R3_R4(chk, cfgname, m):
     """delegation shapes on MIR: overriding `new` is new_from_slice(whole key).unwrap(); Rc2 slice ctor is eff = 8*len"""
     for name, info, inst in m.roots_of(op='new'):
@@ -153,6 +197,12 @@ def rule_R3_R4(chk, cfgname, m):
         if ok and whole:
             chk.ok('R3-delegation', key, dict(type=tyname, new='new_from_slice(&key[..]).unwrap()'))
         else:
-            chk.violation('R3-delegation', key,
-                          '%s::new (%s) is not `new_from_slice(<whole key>).unwrap()`: calls %s' % (
-                              tyname, fn_loc(newf), [pretty(c)[:60] for c in callees][:6]))
+            # not in the delegating shape: decide it on values -- new(k) and new_from_slice(&k[..]) must build the same
+            # instance, leaf for leaf, for a symbolic key of KeySize bytes
+            why = new_equals_new_from_slice(m, inst, nfs[0])
+            if why is None:
+                chk.ok('R3-delegation', key, dict(type=tyname, new='same instance as new_from_slice(&key[..]) (by terms)'))
+            else:
+                chk.violation('R3-delegation', key,
+                              '%s::new (%s) is not `new_from_slice(<whole key>).unwrap()` (calls %s) and does not build the same instance: %s' % (
+                                  tyname, fn_loc(newf), [pretty(c)[:60] for c in callees][:6], why))
